@@ -183,7 +183,7 @@ Proof.
     { destruct Hr as [(E & ->)|(E & ->)].
       - repeat split; try lia. right. rewrite E. discriminate.
       - destruct (Nat.eqb_spec j 0) as [->|Nz].
-        + repeat split; try lia. now left.
+        + repeat split; try lia; now left.
         + destruct (Nat.eq_dec j j0) as [->|Nj].
           * (* Gt at the first scanned index > 0 contradicts the invariant *)
             exfalso. destruct Inv as [->|Inv]; [unfold j0 in Nz; lia|].
@@ -299,7 +299,7 @@ Proof.
       rewrite (sub_cons bl2 j (j + S cnt) []) by lia. cbn [map].
       do 2 f_equal. f_equal. lia.
     + lia.
-    + rewrite app_length. cbn. lia.
+    + rewrite app_length. cbn [length]. lia.
     + lia.
 Qed.
 
